@@ -45,6 +45,17 @@ def generate(G):
                              ("flags_restored_untracked_first", "quick", "u(untracked) * a(tracked): flags of the recorded clones after the pass, second pass from a clone of the root doubles"),
                              ("clone_flags", "quick", "stop/start_tracking and tracked() on clones never change the original")]:
         G.ob("c09_" + name, "C09", name, "c09::%s(s)" % name, unwind=6, tier=tier, skeleton={"what": what})
+    G.ob("c09_tracked_later", "C09", "tracked_later", "c09::tracked_later(s)", unwind=7, tier="quick",
+         skeleton={"what": "b untracked in pass 1, start_tracking(), tracked in pass 2; and w next to w.clone().untracked() in one graph"})
+    for id, prog, ls, stubs, tier in [("div", "Div", [L([2]), L([2], "Pos")], ("powf",), "quick"), ("mul", "Mul", [L([2]), L([2])], (), "thorough"),
+                                      ("exp", "Exp", [L([2])], ("exp",), "quick"), ("recip", "Recip", [L([2], "Pos")], ("powf",), "thorough"),
+                                      ("ln", "Ln", [L([2], "Pos")], ("ln",), "thorough"), ("powf", "Powf(3.0)", [L([2])], ("powf",), "thorough"),
+                                      ("softmax", "Softmax", [L([2], "D2")], ("exp", "powf"), "thorough"),
+                                      ("matmul", "Matmul { at: false, bt: true, c: true }", [L([1, 2], "D2"), L([2, 2], "D2"), L([2], "D2")], (), "thorough"),
+                                      ("sigmoid", "Sigmoid", [L([2], "D2")], ("exp",), "thorough"), ("relu", "Relu", [L([2], "Sgn")], (), "thorough"),
+                                      ("divsum", "DivSum", [L([1, 2], "Pos")], ("powf",), "thorough")]:
+        G.ob("c09_gradient_plain_" + id, "C09", "gradient_plain", "c09::gradient_plain(s, &programs::%s, %s)" % (prog, G.leaves(ls)),
+             unwind=8, tier=tier, stubs=stubs, skeleton={"operation": prog, "what": "stored gradients are untracked and graph-free"})
     # gradient presence with flags on leaves and intermediates: grad obligations
     G.ob("c09_grad_detachmid", "C09", "presence", "grad::grad(s, &programs::DetachMid, %s, Seed::Explicit(Dom::D4), false)" %
          G.leaves([L([2]), L([2])]), unwind=6, tier="quick",
